@@ -518,3 +518,634 @@ Proof.
   intros m real n i delay w Hc Hd. rewrite retry_unfold. cbv zeta. rewrite Hc.
   assert (H : delay <=? 0 = false) by lia. rewrite H. reflexivity.
 Qed.
+
+
+(* ------------------------------------------------------------------ the full cancellation theorem *)
+
+(* the tasks in l return nil or context.Canceled *)
+Definition benign_trace (l : list event) : Prop :=
+  forall k r, In (Task k r) l -> r = None \/ r = Some ECanceled.
+
+Lemma benign_app_l : forall a b, benign_trace (a ++ b) -> benign_trace a.
+Proof. intros a b H k r Hin; apply (H k r); apply in_or_app; auto. Qed.
+Lemma benign_app_r : forall a b, benign_trace (a ++ b) -> benign_trace b.
+Proof. intros a b H k r Hin; apply (H k r); apply in_or_app; auto. Qed.
+
+(* classes of events, from the weakest to the strongest:
+   nc: not the cancellation mark; quiet: moreover not a wait of positive length that elapsed;
+   calm: moreover neither a task nor a clean-up; inert: moreover not a dial attempt, wait or return *)
+Definition is_nc (e : event) : bool := match e with Cancel => false | _ => true end.
+Definition is_quiet (e : event) : bool :=
+  match e with Cancel => false | Wait d => d <=? 0 | _ => true end.
+Definition is_calm (e : event) : bool :=
+  match e with Cancel | Task _ _ | Cleanup _ _ => false | Wait d => d <=? 0 | _ => true end.
+Definition is_inert (e : event) : bool :=
+  match e with
+  | Cancel | Wait _ | DialAttempt _ | Task _ _ | Cleanup _ _ | Return _ => false
+  | _ => true
+  end.
+Local Notation nc l := (forallb is_nc l = true).
+Local Notation quiet l := (forallb is_quiet l = true).
+Local Notation calm l := (forallb is_calm l = true).
+Local Notation inert l := (forallb is_inert l = true).
+
+Lemma fb_impl : forall (f g : event -> bool) l,
+  (forall x, f x = true -> g x = true) -> forallb f l = true -> forallb g l = true.
+Proof.
+  intros f g l H; induction l as [|x l IH]; cbn; auto. intro Hx.
+  apply andb_true_iff in Hx. destruct Hx as [H1 H2]. rewrite (H _ H1), (IH H2). reflexivity.
+Qed.
+Lemma fb_app : forall (f : event -> bool) a b,
+  forallb f a = true -> forallb f b = true -> forallb f (a ++ b) = true.
+Proof. intros f a b Ha Hb. rewrite forallb_app, Ha, Hb. reflexivity. Qed.
+Lemma fb_cons : forall (f : event -> bool) e l,
+  f e = true -> forallb f l = true -> forallb f (e :: l) = true.
+Proof. intros f e l He Hl. cbn. rewrite He, Hl. reflexivity. Qed.
+Lemma fb_app_inv : forall (f : event -> bool) a b,
+  forallb f (a ++ b) = true -> forallb f a = true /\ forallb f b = true.
+Proof. intros f a b H. rewrite forallb_app in H. apply andb_true_iff in H. exact H. Qed.
+
+Lemma inert_calm : forall l, inert l -> calm l.
+Proof. intro l; apply fb_impl. intros [] H; cbn in *; congruence. Qed.
+Lemma calm_quiet : forall l, calm l -> quiet l.
+Proof. intro l; apply fb_impl. intros [] H; cbn in *; congruence. Qed.
+Lemma quiet_nc : forall l, quiet l -> nc l.
+Proof. intro l; apply fb_impl. intros [] H; cbn in *; congruence. Qed.
+
+Local Ltac fb := repeat match goal with
+  | |- forallb _ [] = true => reflexivity
+  | |- forallb _ (_ ++ _) = true => apply fb_app
+  | |- forallb _ (_ :: _) = true => apply fb_cons; [cbn; try reflexivity; try lia|]
+  | |- forallb is_calm _ = true => first [assumption | apply inert_calm; assumption]
+  | |- forallb is_quiet _ = true =>
+      first [assumption | apply calm_quiet; first [assumption | apply inert_calm; assumption]]
+  | |- forallb is_nc _ = true =>
+      first [assumption | apply quiet_nc;
+             first [assumption | apply calm_quiet; first [assumption | apply inert_calm; assumption]]]
+  end.
+
+Lemma nc_not_in : forall l, nc l -> ~ In Cancel l.
+Proof.
+  induction l as [|a l IH]; cbn; [tauto|]. intro H. apply andb_true_iff in H. destruct H as [Ha Hl].
+  intros [E|Hin]; [subst a; discriminate | exact (IH Hl Hin)].
+Qed.
+Lemma not_in_nc : forall l, ~ In Cancel l -> nc l.
+Proof.
+  induction l as [|a l IH]; cbn; [reflexivity|]. intro H. rewrite IH by tauto.
+  destruct a; try reflexivity. exfalso; apply H; left; reflexivity.
+Qed.
+Lemma quiet_no_pos_wait : forall l, quiet l -> no_pos_wait l.
+Proof.
+  induction l as [|a l IH]; intros H d Hin; [destruct Hin|]. cbn in H.
+  apply andb_true_iff in H. destruct H as [Ha Hl]. destruct Hin as [E|Hin].
+  - subst a. cbn in Ha. lia.
+  - exact (IH Hl d Hin).
+Qed.
+
+Lemma count_dials_app : forall a b, count_dials (a ++ b) = (count_dials a + count_dials b)%nat.
+Proof. intros; unfold count_dials; rewrite filter_app, app_length; reflexivity. Qed.
+Lemma count_tasks_app : forall a b, count_tasks (a ++ b) = (count_tasks a + count_tasks b)%nat.
+Proof. intros; unfold count_tasks; rewrite filter_app, app_length; reflexivity. Qed.
+Lemma count_cleanups_app : forall a b, count_cleanups (a ++ b) = (count_cleanups a + count_cleanups b)%nat.
+Proof. intros; unfold count_cleanups; rewrite filter_app, app_length; reflexivity. Qed.
+
+Lemma count_dials_cons : forall e l,
+  count_dials (e :: l) = ((match e with DialAttempt _ => 1 | _ => 0 end) + count_dials l)%nat.
+Proof. intros [] l; reflexivity. Qed.
+Lemma count_tasks_cons : forall e l,
+  count_tasks (e :: l) = ((match e with Task _ _ => 1 | _ => 0 end) + count_tasks l)%nat.
+Proof. intros [] l; reflexivity. Qed.
+Lemma count_cleanups_cons : forall e l,
+  count_cleanups (e :: l) = ((match e with Cleanup _ _ => 1 | _ => 0 end) + count_cleanups l)%nat.
+Proof. intros [] l; reflexivity. Qed.
+Lemma count_dials_nil : count_dials [] = 0%nat. Proof. reflexivity. Qed.
+Lemma count_tasks_nil : count_tasks [] = 0%nat. Proof. reflexivity. Qed.
+Lemma count_cleanups_nil : count_cleanups [] = 0%nat. Proof. reflexivity. Qed.
+#[local] Hint Rewrite count_dials_app count_tasks_app count_cleanups_app
+  count_dials_cons count_tasks_cons count_cleanups_cons
+  count_dials_nil count_tasks_nil count_cleanups_nil : cnt.
+Local Ltac cnt := autorewrite with cnt in *; cbv match in *.
+
+Lemma calm_counts : forall l, calm l -> count_tasks l = 0%nat /\ count_cleanups l = 0%nat.
+Proof.
+  induction l as [|a l IH]; intro H; [split; reflexivity|]. cbn in H.
+  apply andb_true_iff in H. destruct H as [Ha Hl]. destruct (IH Hl) as [H1 H2].
+  destruct a; cbn in Ha; try discriminate; split; assumption.
+Qed.
+Lemma inert_dials : forall l, inert l -> count_dials l = 0%nat.
+Proof.
+  induction l as [|a l IH]; intro H; [reflexivity|]. cbn in H.
+  apply andb_true_iff in H. destruct H as [Ha Hl]. pose proof (IH Hl) as H1.
+  destruct a; cbn in Ha; try discriminate; assumption.
+Qed.
+
+Lemma backoff_pos : forall i, 0 <= i -> 0 < backoff i.
+Proof.
+  intros i Hi; unfold backoff, dialStepOffset, dialStep, dialMaxDelay.
+  destruct (3000000000 <? (i + 1) * 250000000); lia.
+Qed.
+
+(* ---- one DialFunc call *)
+Lemma do_real_spec : forall m s w ev w' o,
+  do_real m s w = (ev, w', o) -> inert ev /\ w_cancelled w' = w_cancelled w.
+Proof.
+  intros m [lk ck op g st lv cl] w ev w' o; unfold do_real; cbn.
+  destruct lk, ck, op, m, g, st; intro H; inversion H; subst; split; reflexivity.
+Qed.
+
+Lemma do_dial_spec : forall m real w ev w' o, do_dial m real w = (ev, w', o) ->
+  exists body c,
+    ev = body ++ DialAttempt (dres o) :: (if c && negb (w_cancelled w) then [Cancel] else []) /\
+    inert body /\ w_cancelled w' = c || w_cancelled w.
+Proof.
+  intros m real w ev w' o; unfold do_dial.
+  destruct (hd (default_dial real) (w_dials w)) as [r c | s c].
+  - destruct r; intro H; inversion H; subst; exists [], c;
+      (split; [reflexivity|]); (split; [reflexivity|]); destruct c; reflexivity.
+  - destruct (do_real m s (set_dials w (tl (w_dials w)))) as [[ev1 w1] o1] eqn:Er.
+    apply do_real_spec in Er. destruct Er as [Hi Hc]. cbn [w_cancelled set_dials] in Hc.
+    intro H; inversion H; subst. exists ev1, c. split.
+    + unfold mark. rewrite Hc. reflexivity.
+    + split; [exact Hi|]. destruct c; cbn; auto.
+Qed.
+
+(* ---- re-initialisation from a cancelled context *)
+Lemma retry_cancelled_calm : forall m real n i delay w ev w' o,
+  w_cancelled w = true -> 0 <= i ->
+  retry m real (S (S n)) i delay w = (ev, w', o) ->
+  calm ev /\ (count_dials ev <= 1)%nat /\ w_cancelled w' = true /\
+  (o = ICanceled \/ exists k kind, o = IConn k kind).
+Proof.
+  intros m real n i delay w ev w' o Hc Hi H. rewrite retry_unfold in H. cbv zeta in H. rewrite Hc in H.
+  destruct (delay <=? 0) eqn:Ed.
+  - unfold pop_bit in H. destruct (hd false (w_bits w)).
+    + destruct (do_dial m real (set_bits w (tl (w_bits w)))) as [[evd w1] od] eqn:Edl.
+      apply do_dial_spec in Edl. destruct Edl as (body & c & -> & Hb & Hc1).
+      cbn [w_cancelled set_bits] in Hc1. rewrite Hc in Hc1. rewrite orb_true_r in Hc1.
+      cbn [w_cancelled set_bits] in H. rewrite Hc, andb_false_r in H.
+      destruct od as [k kind | e].
+      * inversion H; subst. split; [fb|]. split.
+        { cnt. rewrite (inert_dials _ Hb). lia. }
+        split; [exact Hc1|]. right; eauto.
+      * rewrite (wait_when_cancelled m real n (i + 1) (backoff i) w1 Hc1 (backoff_pos i Hi)) in H.
+        inversion H; subst. split; [fb|]. split.
+        { cnt. rewrite (inert_dials _ Hb). lia. }
+        split; [exact Hc1|]. left; reflexivity.
+    + inversion H; subst. split; [reflexivity|]. split; [cbn; lia|]. split; [exact Hc|]. left; reflexivity.
+  - inversion H; subst. split; [reflexivity|]. split; [cbn; lia|]. split; [exact Hc|]. left; reflexivity.
+Qed.
+
+Lemma init_cancelled_some : forall m real e w ev w' o,
+  w_cancelled w = true -> init m real (Some e) w = (ev, w', o) ->
+  calm ev /\ (count_dials ev <= 1)%nat /\ w_cancelled w' = true /\
+  (count_dials ev = 0%nat \/ o = ICanceled \/ exists k kind, o = IConn k kind).
+Proof.
+  intros m real e w ev w' o Hc; unfold init. destruct (recoverable e).
+  - change (Z.to_nat dialAttempts) with (S (S 48)). change dialLoopStart with 0. intro H.
+    apply retry_cancelled_calm in H; [|exact Hc|lia]. destruct H as (H1 & H2 & H3 & H4). auto.
+  - intro H; inversion H; subst. split; [reflexivity|]. split; [cbn; lia|]. split; [exact Hc|]. left; reflexivity.
+Qed.
+
+Lemma init_cancelled_none : forall m real w ev w' o,
+  w_cancelled w = true -> init m real None w = (ev, w', o) ->
+  calm ev /\ (count_dials ev <= 2)%nat /\ w_cancelled w' = true /\
+  (o = ICanceled \/ (exists k kind, o = IConn k kind) \/
+   exists e, o = IErr e /\ lit_recoverable e = false /\ In (DialAttempt (Some e)) ev).
+Proof.
+  intros m real w ev w' o Hc; unfold init.
+  destruct (do_dial m real w) as [[evd w1] od] eqn:Edl.
+  apply do_dial_spec in Edl. destruct Edl as (body & c & -> & Hb & Hc1).
+  rewrite Hc, andb_false_r in *. rewrite orb_true_r in Hc1.
+  destruct od as [k kind | e].
+  - intro H; inversion H; subst. split; [fb|]. split; [cnt; rewrite (inert_dials _ Hb); lia|].
+    split; [exact Hc1|]. right; left; eauto.
+  - rewrite recoverable_lit. destruct (lit_recoverable e) eqn:El.
+    + change (Z.to_nat dialAttempts) with (S (S 48)). change dialLoopStart with 0.
+      destruct (retry m real (S (S 48)) 0 0 w1) as [[ev2 w2] o2] eqn:Er.
+      apply retry_cancelled_calm in Er; [|exact Hc1|lia]. destruct Er as (H1 & H2 & H3 & H4).
+      intro H; inversion H; subst. split; [fb|]. split; [cnt; rewrite (inert_dials _ Hb); lia|].
+      split; [exact H3|]. destruct H4 as [H4|H4]; auto.
+    + intro H; inversion H; subst. split; [fb|]. split; [cnt; rewrite (inert_dials _ Hb); lia|].
+      split; [exact Hc1|]. right; right. exists e. split; [reflexivity|]. split; [exact El|].
+      apply in_or_app; right; left; reflexivity.
+Qed.
+
+(* ---- fn + done *)
+Lemma do_cleanup_spec : forall k kind te w evc w' ok,
+  do_cleanup k kind te w = (evc, w', ok) -> inert evc /\ w_cancelled w' = w_cancelled w.
+Proof.
+  intros k kind te w evc w' ok; unfold do_cleanup. destruct kind as [|[prev|]].
+  - intro H; inversion H; subst; split; reflexivity.
+  - destruct (t_restore te); intro H; inversion H; subst; split; reflexivity.
+  - intro H; inversion H; subst; split; reflexivity.
+Qed.
+
+Lemma round_spec : forall k kind te w ev w' ro, round k kind te w = (ev, w', ro) ->
+  exists evc ok,
+    ev = (if t_cancel te && negb (w_cancelled w) then [Cancel] else []) ++
+         Task k (t_res te) :: evc ++
+         Cleanup k ok :: (if t_cancel_done te && negb (t_cancel te || w_cancelled w) then [Cancel] else []) /\
+    inert evc /\ w_cancelled w' = t_cancel_done te || (t_cancel te || w_cancelled w) /\
+    ro = round_result (t_res te) ok.
+Proof.
+  intros k kind te w ev w' ro; unfold round.
+  destruct (do_cleanup k kind te (cancel_if (t_cancel te) w)) as [[evc w2] ok] eqn:Ec.
+  apply do_cleanup_spec in Ec. destruct Ec as [Hi Hc].
+  assert (Hc2 : w_cancelled w2 = t_cancel te || w_cancelled w).
+  { rewrite Hc. destruct (t_cancel te); reflexivity. }
+  intro H; inversion H; subst. exists evc, ok. split.
+  - unfold mark. rewrite Hc2. reflexivity.
+  - split; [exact Hi|]. split; [|reflexivity]. rewrite <- Hc2. destruct (t_cancel_done te); reflexivity.
+Qed.
+
+(* ---- Dial = init, then the continuation *)
+Definition cont (m : mode) (real : bool) (tasks : list task_ev) (o : init_out) (w1 : world) : list event :=
+  match o with
+  | IConn k kind =>
+      let '(ev2, w2, ro) := round k kind (hd default_task tasks) w1 in
+      ev2 ++
+      match ro with
+      | RDone v => [Return v]
+      | RAgain e =>
+          match tasks with
+          | [] => [Return RNil]
+          | _ :: tl => loop m real tl (Some e) w2
+          end
+      end
+  | _ => [Return (final o)]
+  end.
+
+Lemma loop_unfold : forall m real tasks cause w,
+  loop m real tasks cause w = let '(ev, w1, o) := init m real cause w in ev ++ cont m real tasks o w1.
+Proof. intros m real [|te tl] cause w; reflexivity. Qed.
+
+Lemma loop_not_recoverable : forall m real tasks e w,
+  recoverable e = false -> loop m real tasks (Some e) w = [Return (final (IErr e))].
+Proof. intros m real tasks e w H. rewrite loop_unfold. cbn [init]. rewrite H. reflexivity. Qed.
+
+(* from a cancelled context: no further mark, no back-off wait of positive length *)
+Lemma cont_quiet : forall m real tasks o w1,
+  (forall te ts, tasks = te :: ts ->
+     forall e w2, w_cancelled w2 = true -> quiet (loop m real ts (Some e) w2)) ->
+  w_cancelled w1 = true -> quiet (cont m real tasks o w1).
+Proof.
+  intros m real tasks o w1 IH Hc. unfold cont. destruct o as [k kind | e | | ]; try reflexivity.
+  destruct (round k kind (hd default_task tasks) w1) as [[ev2 w2] ro] eqn:Er.
+  apply round_spec in Er. destruct Er as (evc & ok & -> & Hi & Hc2 & _).
+  rewrite Hc, orb_true_r, !andb_false_r in *. rewrite orb_true_r in Hc2.
+  destruct ro as [v | e]; [fb|]. destruct tasks as [|te ts]; [fb|].
+  pose proof (IH te ts eq_refl e w2 Hc2). fb.
+Qed.
+
+Lemma init_cancelled_calm : forall m real cause w ev w' o,
+  w_cancelled w = true -> init m real cause w = (ev, w', o) -> calm ev /\ w_cancelled w' = true.
+Proof.
+  intros m real cause w ev w' o Hc Ei.
+  destruct cause as [e|]; [apply init_cancelled_some in Ei | apply init_cancelled_none in Ei]; tauto.
+Qed.
+
+Lemma loop_cancelled_quiet : forall m real tasks cause w,
+  w_cancelled w = true -> quiet (loop m real tasks cause w).
+Proof.
+  intros m real tasks; induction tasks as [|te ts IH]; intros cause w Hc; rewrite loop_unfold;
+    destruct (init m real cause w) as [[ev w1] o] eqn:Ei;
+    apply init_cancelled_calm in Ei; try exact Hc; destruct Ei as [Hq Hc1];
+    (apply fb_app; [fb|]); (apply cont_quiet; [|exact Hc1]); intros te' ts' E; inversion E; subst.
+  intros e w2; apply IH.
+Qed.
+
+Lemma cont_cancelled_quiet : forall m real tasks o w1,
+  w_cancelled w1 = true -> quiet (cont m real tasks o w1).
+Proof.
+  intros m real tasks o w1 Hc. apply cont_quiet; [|exact Hc].
+  intros te ts _ e w2. apply loop_cancelled_quiet.
+Qed.
+
+(* from a cancelled context, when the task (if any) returns nil / context.Canceled: no dial, at most
+   one task and clean-up, and the value returned *)
+Lemma cont_cancelled_benign : forall m real tasks o w1,
+  w_cancelled w1 = true -> benign_trace (cont m real tasks o w1) ->
+  exists c' v, cont m real tasks o w1 = c' ++ [Return v] /\
+    count_dials c' = 0%nat /\ (count_tasks c' <= 1)%nat /\ (count_cleanups c' <= 1)%nat /\
+    match o with IConn _ _ => v = RNil \/ v = RCleanupErr | _ => c' = [] /\ v = final o end.
+Proof.
+  intros m real tasks o w1 Hc. unfold cont. destruct o as [k kind | e | | ].
+  2-4: intros _; eexists [], _; cbn; repeat split; lia.
+  remember (hd default_task tasks) as te eqn:Ete.
+  destruct (round k kind te w1) as [[ev2 w2] ro] eqn:Er.
+  apply round_spec in Er. destruct Er as (evc & ok & -> & Hi & Hc2 & ->).
+  rewrite Hc, orb_true_r, !andb_false_r in *. cbn [app]. intro Hb.
+  assert (Hr : t_res te = None \/ t_res te = Some ECanceled) by (apply (Hb k); left; reflexivity).
+  pose proof (inert_dials _ Hi) as Hd. destruct (calm_counts _ (inert_calm _ Hi)) as [Ht Hcl].
+  assert (Hcnt : forall r, count_dials (Task k r :: evc ++ [Cleanup k ok]) = 0%nat /\
+                      (count_tasks (Task k r :: evc ++ [Cleanup k ok]) <= 1)%nat /\
+                      (count_cleanups (Task k r :: evc ++ [Cleanup k ok]) <= 1)%nat).
+  { intro r. cnt. lia. }
+  destruct ok; [destruct Hr as [E|E]; rewrite E in *; cbn [round_result] |]. 
+  - exists (Task k None :: evc ++ [Cleanup k true]), RNil. split; [reflexivity|].
+    destruct (Hcnt None) as (H1 & H2 & H3). auto.
+  - exists (Task k (Some ECanceled) :: evc ++ [Cleanup k true]), RNil. split.
+    + destruct tasks as [|te' ts]; [reflexivity|].
+      rewrite loop_not_recoverable by reflexivity. reflexivity.
+    + destruct (Hcnt (Some ECanceled)) as (H1 & H2 & H3). auto.
+  - cbn [round_result]. exists (Task k (t_res te) :: evc ++ [Cleanup k false]), RCleanupErr.
+    split; [reflexivity|].
+    destruct (Hcnt (t_res te)) as (H1 & H2 & H3). auto.
+Qed.
+
+Lemma cont_after_gen : forall m real tasks o w1 q,
+  w_cancelled w1 = true -> calm q -> benign_trace (q ++ cont m real tasks o w1) ->
+  count_dials (q ++ cont m real tasks o w1) = count_dials q /\
+  (count_tasks (q ++ cont m real tasks o w1) <= 1)%nat /\
+  (count_cleanups (q ++ cont m real tasks o w1) <= 1)%nat /\
+  exists pre' v, q ++ cont m real tasks o w1 = pre' ++ [Return v] /\
+    match o with
+    | IConn _ _ => v = RNil \/ v = RCleanupErr
+    | _ => v = final o /\ count_tasks (q ++ cont m real tasks o w1) = 0%nat
+    end.
+Proof.
+  intros m real tasks o w1 q Hc Hq Hb. apply benign_app_r in Hb.
+  destruct (cont_cancelled_benign _ _ _ _ _ Hc Hb) as (c' & v & -> & Hd & Ht & Hcl & Ho).
+  destruct (calm_counts _ Hq) as [Hqt Hqc]. cnt.
+  split; [lia|]. split; [lia|]. split; [lia|].
+  exists (q ++ c'), v. split; [apply app_assoc|].
+  destruct o as [k kind | e | | ]; try exact Ho; destruct Ho as [-> ->]; split; try reflexivity; cnt; lia.
+Qed.
+
+(* what may follow the cancellation mark (when it is not the very first event of the run) *)
+Definition after_ok (post : list event) : Prop :=
+  quiet post /\
+  (benign_trace post ->
+     (count_dials post <= 1)%nat /\ (count_tasks post <= 1)%nat /\ (count_cleanups post <= 1)%nat /\
+     exists pre' v, post = pre' ++ [Return v] /\
+       (v = RNil \/ v = RCleanupErr \/ (count_dials post = 0%nat /\ count_tasks post = 0%nat))).
+
+Lemma after_ok_return : forall v, after_ok [Return v].
+Proof.
+  intro v. split; [reflexivity|]. intros _. cbn. repeat split; try lia.
+  exists [], v. split; [reflexivity|]. right; right; split; reflexivity.
+Qed.
+
+Lemma cont_after : forall m real tasks o w1 q,
+  w_cancelled w1 = true -> calm q -> (count_dials q <= 1)%nat ->
+  (count_dials q = 0%nat \/ o = ICanceled \/ exists k kind, o = IConn k kind) ->
+  after_ok (q ++ cont m real tasks o w1).
+Proof.
+  intros m real tasks o w1 q Hc Hq Hd Ho. split.
+  - pose proof (cont_cancelled_quiet m real tasks o w1 Hc). fb.
+  - intro Hb. destruct (cont_after_gen _ _ _ _ _ _ Hc Hq Hb) as (H1 & H2 & H3 & pre' & v & E & Hv).
+    split; [lia|]. split; [exact H2|]. split; [exact H3|]. exists pre', v. split; [exact E|].
+    destruct o as [k kind | e | | ].
+    + destruct Hv; auto.
+    + destruct Ho as [Ho|[Ho|(k & kind & Ho)]]; try discriminate. right; right. split; [lia|tauto].
+    + left. tauto.
+    + destruct Ho as [Ho|[Ho|(k & kind & Ho)]]; try discriminate. right; right. split; [lia|tauto].
+Qed.
+
+Lemma loop_cancelled_some : forall m real tasks e w,
+  w_cancelled w = true -> after_ok (loop m real tasks (Some e) w).
+Proof.
+  intros m real tasks e w Hc. rewrite loop_unfold.
+  destruct (init m real (Some e) w) as [[ev w1] o] eqn:Ei.
+  apply init_cancelled_some in Ei; [|exact Hc]. destruct Ei as (Hq & Hd & Hc1 & Ho).
+  apply cont_after; assumption.
+Qed.
+
+Lemma loop_cancelled_none : forall m real tasks w,
+  w_cancelled w = true -> benign_trace (loop m real tasks None w) ->
+  (count_dials (loop m real tasks None w) <= 2)%nat /\
+  (count_tasks (loop m real tasks None w) <= 1)%nat /\
+  (count_cleanups (loop m real tasks None w) <= 1)%nat /\
+  exists pre' v, loop m real tasks None w = pre' ++ [Return v] /\
+    (v = RNil \/ v = RCleanupErr \/
+     exists e, v = RWrap e /\ lit_recoverable e = false /\
+               count_tasks (loop m real tasks None w) = 0%nat /\
+               In (DialAttempt (Some e)) (loop m real tasks None w)).
+Proof.
+  intros m real tasks w Hc. rewrite loop_unfold.
+  destruct (init m real None w) as [[ev w1] o] eqn:Ei.
+  apply init_cancelled_none in Ei; [|exact Hc]. destruct Ei as (Hq & Hd & Hc1 & Ho).
+  intro Hb. destruct (cont_after_gen _ _ _ _ _ _ Hc1 Hq Hb) as (H1 & H2 & H3 & pre' & v & E & Hv).
+  split; [lia|]. split; [exact H2|]. split; [exact H3|]. exists pre', v. split; [exact E|].
+  destruct Ho as [->|[(k & kind & ->)|(e & -> & El & Hin)]].
+  - left; tauto.
+  - destruct Hv; auto.
+  - destruct Hv as [-> Ht]. destruct e; try discriminate El; cbn [final is_canceled]; auto;
+      right; right; eexists; (split; [reflexivity|]); (split; [reflexivity|]); (split; [exact Ht|]);
+      apply in_or_app; left; exact Hin.
+Qed.
+
+(* ---- from a context that is not cancelled *)
+Local Ltac lst := repeat (cbn [app]; rewrite <- app_assoc); cbn [app]; reflexivity.
+
+Lemma retry_fresh : forall m real n i delay w ev w' o,
+  w_cancelled w = false -> 0 <= i -> retry m real n i delay w = (ev, w', o) ->
+  (nc ev /\ w_cancelled w' = false) \/
+  (exists p q, ev = p ++ Cancel :: q /\ nc p /\ w_cancelled w' = true /\ inert q).
+Proof.
+  intros m real n; induction n as [|n IH]; intros i delay w ev w' o Hc Hi H.
+  - cbn in H; inversion H; subst. left; split; [reflexivity|exact Hc].
+  - rewrite retry_unfold in H. cbv zeta in H. rewrite Hc in H.
+    assert (Hgo : forall w0 ev w' o, w_cancelled w0 = false ->
+      (let '(ev, w1, o) := do_dial m real w0 in
+       match o with
+       | DConn k kind => ([Wait delay] ++ ev, w1, IConn k kind)
+       | DFail _ =>
+           let '(ev2, w2, o2) := retry m real n (i + 1) (backoff i) w1 in
+           ([Wait delay] ++ ev ++ ev2, w2, o2)
+       end) = (ev, w', o) ->
+      (nc ev /\ w_cancelled w' = false) \/
+      (exists p q, ev = p ++ Cancel :: q /\ nc p /\ w_cancelled w' = true /\ inert q)).
+    { clear H. intros w0 ev0 w0' o0 Hc0 H.
+      destruct (do_dial m real w0) as [[evd w1] od] eqn:Edl.
+      apply do_dial_spec in Edl. destruct Edl as (body & c & -> & Hb & Hc1).
+      rewrite Hc0 in *. rewrite orb_false_r in Hc1. destruct c; cbn [andb negb] in H.
+      - (* cancelled while this dial is in progress *)
+        destruct od as [k kind | e].
+        + inversion H; subst. right. exists ([Wait delay] ++ body ++ [DialAttempt None]), [].
+          split; [cbn [dres]; lst|]. split; [fb|]. split; [exact Hc1|reflexivity].
+        + destruct n as [|n].
+          * cbn [retry] in H. inversion H; subst. right.
+            exists ([Wait delay] ++ body ++ [DialAttempt (Some e)]), [].
+            split; [cbn [dres]; lst|]. split; [fb|]. split; [exact Hc1|reflexivity].
+          * rewrite (wait_when_cancelled m real n (i + 1) (backoff i) w1 Hc1 (backoff_pos i Hi)) in H.
+            inversion H; subst. right.
+            exists ([Wait delay] ++ body ++ [DialAttempt (Some e)]), [WaitCut (backoff i) 0].
+            split; [cbn [dres]; lst|]. split; [fb|]. split; [exact Hc1|reflexivity].
+      - destruct od as [k kind | e].
+        + inversion H; subst. left. split; [fb|exact Hc1].
+        + destruct (retry m real n (i + 1) (backoff i) w1) as [[ev2 w2] o2] eqn:Er.
+          apply IH in Er; [|exact Hc1|lia]. inversion H; subst.
+          destruct Er as [[Hn Hw]|(p & q & -> & Hp & Hw & Hq)].
+          * left. split; [fb|exact Hw].
+          * right. exists ([Wait delay] ++ (body ++ [DialAttempt (Some e)]) ++ p), q.
+            split; [cbn [dres]; lst|]. split; [fb|]. split; assumption. }
+    destruct (0 <? delay).
+    + unfold pop_wait in H. destruct (hd false (w_waits w)).
+      * inversion H; subst. right. exists [WaitCut delay cut_offset], [].
+        split; [reflexivity|]. split; [reflexivity|]. split; reflexivity.
+      * eapply Hgo; [|exact H]. exact Hc.
+    + eapply Hgo; [|exact H]. exact Hc.
+Qed.
+
+Lemma init_fresh : forall m real cause w ev w' o,
+  w_cancelled w = false -> init m real cause w = (ev, w', o) ->
+  (nc ev /\ w_cancelled w' = false) \/
+  (exists p q, ev = p ++ Cancel :: q /\ nc p /\ w_cancelled w' = true /\ calm q /\
+     (count_dials q <= 1)%nat /\
+     (count_dials q = 0%nat \/ o = ICanceled \/ exists k kind, o = IConn k kind)).
+Proof.
+  intros m real cause w ev w' o Hc; unfold init.
+  change (Z.to_nat dialAttempts) with (S (S 48)). change dialLoopStart with 0.
+  destruct cause as [e|].
+  - destruct (recoverable e).
+    + intro H. apply retry_fresh in H; [|exact Hc|lia].
+      destruct H as [H|(p & q & -> & Hp & Hw & Hq)]; [left; exact H|].
+      right. exists p, q. split; [reflexivity|]. split; [exact Hp|]. split; [exact Hw|].
+      split; [fb|]. rewrite (inert_dials _ Hq). split; [lia|]. left; reflexivity.
+    + intro H; inversion H; subst. left. split; [reflexivity|exact Hc].
+  - destruct (do_dial m real w) as [[evd w1] od] eqn:Edl.
+    apply do_dial_spec in Edl. destruct Edl as (body & c & -> & Hb & Hc1).
+    rewrite Hc in *. rewrite orb_false_r in Hc1. destruct c; cbn [andb negb].
+    + (* cancelled while the first dial is in progress *)
+      destruct od as [k kind | e].
+      * intro H; inversion H; subst. right. exists (body ++ [DialAttempt None]), [].
+        split; [cbn [dres]; lst|]. split; [fb|]. split; [exact Hc1|]. split; [reflexivity|].
+        split; [cbn; lia|]. left; reflexivity.
+      * destruct (recoverable e).
+        -- destruct (retry m real (S (S 48)) 0 0 w1) as [[ev2 w2] o2] eqn:Er.
+           apply retry_cancelled_calm in Er; [|exact Hc1|lia]. destruct Er as (H1 & H2 & H3 & H4).
+           intro H; inversion H; subst. right. exists (body ++ [DialAttempt (Some e)]), ev2.
+           split; [cbn [dres]; lst|]. split; [fb|]. split; [exact H3|]. split; [exact H1|].
+           split; [exact H2|]. right; exact H4.
+        -- intro H; inversion H; subst. right. exists (body ++ [DialAttempt (Some e)]), [].
+           split; [cbn [dres]; lst|]. split; [fb|]. split; [exact Hc1|]. split; [reflexivity|].
+           split; [cbn; lia|]. left; reflexivity.
+    + destruct od as [k kind | e].
+      * intro H; inversion H; subst. left. split; [fb|exact Hc1].
+      * destruct (recoverable e).
+        -- destruct (retry m real (S (S 48)) 0 0 w1) as [[ev2 w2] o2] eqn:Er.
+           apply retry_fresh in Er; [|exact Hc1|lia]. intro H; inversion H; subst.
+           destruct Er as [[Hn Hw]|(p & q & -> & Hp & Hw & Hq)].
+           ++ left. split; [fb|exact Hw].
+           ++ right. exists ((body ++ [DialAttempt (Some e)]) ++ p), q.
+              split; [cbn [dres]; lst|]. split; [fb|]. split; [exact Hw|].
+              split; [fb|]. rewrite (inert_dials _ Hq). split; [lia|]. left; reflexivity.
+        -- intro H; inversion H; subst. left. split; [fb|exact Hc1].
+Qed.
+
+(* a run, or a part of one, that starts with the context not cancelled: no mark, or exactly one
+   and after_ok what follows it *)
+Definition fresh_ok (tr : list event) : Prop :=
+  nc tr \/ exists p q, tr = p ++ Cancel :: q /\ nc p /\ after_ok q.
+
+Lemma fresh_ok_prefix : forall a b, nc a -> fresh_ok b -> fresh_ok (a ++ b).
+Proof.
+  intros a b Ha [Hb | (p & q & -> & Hp & Hq)]; [left; fb|].
+  right. exists (a ++ p), q. split; [apply app_assoc|]. split; [fb|exact Hq].
+Qed.
+
+(* cancelled while the task runs: the mark, then the same as from a cancelled context *)
+Lemma round_pre_cancel : forall k kind te w,
+  t_cancel te = true -> w_cancelled w = false ->
+  round k kind te w =
+    let '(ev, w', ro) := round k kind te (set_cancelled w) in (Cancel :: ev, w', ro).
+Proof.
+  intros k kind te w Ht Hc. unfold round. rewrite Ht. cbn [cancel_if].
+  change (set_cancelled (set_cancelled w)) with (set_cancelled w).
+  destruct (do_cleanup k kind te (set_cancelled w)) as [[evc w2] ok].
+  unfold mark at 1 3. rewrite Hc. reflexivity.
+Qed.
+
+Lemma cont_pre_cancel : forall m real tasks k kind w,
+  t_cancel (hd default_task tasks) = true -> w_cancelled w = false ->
+  cont m real tasks (IConn k kind) w = Cancel :: cont m real tasks (IConn k kind) (set_cancelled w).
+Proof.
+  intros m real tasks k kind w Ht Hc. unfold cont. rewrite (round_pre_cancel _ _ _ _ Ht Hc).
+  destruct (round k kind (hd default_task tasks) (set_cancelled w)) as [[ev w'] ro]. reflexivity.
+Qed.
+
+Lemma cont_fresh : forall m real tasks o w1,
+  (forall te ts, tasks = te :: ts ->
+     forall e w2, w_cancelled w2 = false -> fresh_ok (loop m real ts (Some e) w2)) ->
+  w_cancelled w1 = false -> fresh_ok (cont m real tasks o w1).
+Proof.
+  intros m real tasks o w1 IH Hc. destruct o as [k kind | e | | ]; try (left; reflexivity).
+  destruct (t_cancel (hd default_task tasks)) eqn:Ht.
+  - rewrite (cont_pre_cancel _ _ _ _ _ _ Ht Hc). right.
+    exists [], ([] ++ cont m real tasks (IConn k kind) (set_cancelled w1)).
+    split; [reflexivity|]. split; [reflexivity|].
+    apply cont_after; [reflexivity|reflexivity|cbn; lia|left; reflexivity].
+  - unfold cont. destruct (round k kind (hd default_task tasks) w1) as [[ev2 w2] ro] eqn:Er.
+    apply round_spec in Er. destruct Er as (evc & ok & -> & Hi & Hc2 & _).
+    rewrite Ht, Hc in *. cbn [andb orb negb app] in *. rewrite orb_false_r in Hc2. rewrite andb_true_r.
+    destruct (t_cancel_done (hd default_task tasks)).
+    + (* cancelled while done() runs *)
+      right. exists (Task k (t_res (hd default_task tasks)) :: evc ++ [Cleanup k ok]).
+      eexists. split; [lst|]. split; [fb|].
+      destruct ro as [v | e]; [apply after_ok_return|].
+      destruct tasks as [|te ts]; [apply after_ok_return|]. apply loop_cancelled_some. exact Hc2.
+    + match goal with |- fresh_ok (?x :: ?a ++ ?r) => change (fresh_ok ((x :: a) ++ r)) end.
+      apply fresh_ok_prefix; [fb|]. destruct ro as [v | e]; [left; reflexivity|].
+      destruct tasks as [|te ts]; [left; reflexivity|]. apply (IH te ts eq_refl). exact Hc2.
+Qed.
+
+Lemma loop_fresh : forall m real tasks cause w,
+  w_cancelled w = false -> fresh_ok (loop m real tasks cause w).
+Proof.
+  intros m real tasks; induction tasks as [|te ts IH]; intros cause w Hc; rewrite loop_unfold;
+    destruct (init m real cause w) as [[ev w1] o] eqn:Ei;
+    apply init_fresh in Ei; try exact Hc;
+    (destruct Ei as [[Hn Hc1]|(p & q & -> & Hp & Hc1 & Hq & Hd & Ho)];
+     [ apply fresh_ok_prefix; [exact Hn|]; apply cont_fresh; [|exact Hc1];
+       intros te' ts' E; inversion E; subst; intros e w2; apply IH
+     | right; eexists p, _; split; [rewrite <- app_assoc; reflexivity|]; split; [exact Hp|];
+       apply cont_after; assumption ]).
+Qed.
+
+(* ---- the theorem *)
+Lemma cancel_split_unique : forall a b a' b',
+  a ++ Cancel :: b = a' ++ Cancel :: b' -> nc a -> nc b -> a' = a /\ b' = b.
+Proof.
+  induction a as [|x a IH]; intros b a' b' E Ha Hb.
+  - destruct a' as [|y a']; cbn in E; inversion E; subst; [split; reflexivity|].
+    exfalso. apply (nc_not_in _ Hb). apply in_or_app; right; left; reflexivity.
+  - cbn in Ha. apply andb_true_iff in Ha. destruct Ha as [Hx Ha].
+    destruct a' as [|y a']; cbn in E; inversion E; subst; [discriminate Hx|].
+    destruct (IH _ _ _ H1 Ha Hb) as [-> ->]. split; reflexivity.
+Qed.
+
+Theorem cancel_full : forall sc pre post, dial_loop sc = pre ++ Cancel :: post ->
+  ~ In Cancel pre /\ ~ In Cancel post /\ no_pos_wait post /\
+  (benign_trace post ->
+     (count_dials post <= (if Nat.eqb (count_dials pre) 0 then 2 else 1))%nat /\
+     (count_tasks post <= 1)%nat /\ (count_cleanups post <= 1)%nat /\
+     exists pre' v, post = pre' ++ [Return v] /\
+       (v = RNil \/ v = RCleanupErr \/
+        (count_dials post = 0%nat /\ count_tasks post = 0%nat) \/
+        (exists e, v = RWrap e /\ lit_recoverable e = false /\ count_dials pre = 0%nat /\
+                   count_tasks post = 0%nat /\ In (DialAttempt (Some e)) post))).
+Proof.
+  intros sc pre post; unfold dial_loop. destruct (sc_pre sc) eqn:Ep.
+  - (* the context is cancelled before Dial is called *)
+    assert (Hc : w_cancelled (init_world sc) = true) by exact Ep.
+    pose proof (loop_cancelled_quiet (sc_mode sc) (sc_real sc) (sc_tasks sc) None _ Hc) as Hq.
+    pose proof (loop_cancelled_none (sc_mode sc) (sc_real sc) (sc_tasks sc) _ Hc) as Hb.
+    intro E. change ([Cancel] ++ ?l) with ([] ++ Cancel :: l) in E.
+    apply cancel_split_unique in E; [|reflexivity|fb]. destruct E as [-> ->].
+    split; [intros []|]. split; [apply nc_not_in; fb|]. split; [apply quiet_no_pos_wait; exact Hq|].
+    intro Hbn. destruct (Hb Hbn) as (H1 & H2 & H3 & pre' & v & E & Hv).
+    split; [exact H1|]. split; [exact H2|]. split; [exact H3|]. exists pre', v. split; [exact E|].
+    destruct Hv as [Hv|[Hv|(e & Hv & El & Ht & Hin)]]; auto.
+    right; right; right. exists e. auto.
+  - assert (Hc : w_cancelled (init_world sc) = false) by exact Ep.
+    pose proof (loop_fresh (sc_mode sc) (sc_real sc) (sc_tasks sc) None _ Hc) as Hf.
+    cbn [app]. intro E. destruct Hf as [Hn|(p & q & E' & Hp & Hq & Hb)].
+    + exfalso. apply (nc_not_in _ Hn). rewrite E. apply in_or_app; right; left; reflexivity.
+    + rewrite E' in E. apply cancel_split_unique in E; [|exact Hp|fb]. destruct E as [-> ->].
+      split; [apply nc_not_in; exact Hp|]. split; [apply nc_not_in; fb|].
+      split; [apply quiet_no_pos_wait; exact Hq|].
+      intro Hbn. destruct (Hb Hbn) as (H1 & H2 & H3 & pre' & v & E & Hv).
+      split; [destruct (Nat.eqb (count_dials p) 0); lia|]. split; [exact H2|]. split; [exact H3|].
+      exists pre', v. split; [exact E|]. tauto.
+Qed.
